@@ -79,7 +79,8 @@ def merged_attempts(execs):
                    "worker": st["worker"], "scope": scope_key(st), "start_seq": st["seq"], "end_seq": end_seq,
                    "status": ex["status"], "parts": [ex], "creation": True, "start": st}
             attempts.append(att)
-            if ex["status"] in ("PASS", "WARN", "SKIP", "CANCEL"):
+            # the runner treats every status but FAIL and ERROR as "go on with the installation"
+            if ex["status"] not in ("FAIL", "ERROR", None):
                 open_pre[(st["worker"], st["object_root"])] = att
         elif is_creation_main(st):
             att = open_pre.pop((st["worker"], st["object_root"]), None)
@@ -98,6 +99,12 @@ def merged_attempts(execs):
                              "scope": scope_key(st), "start_seq": st["seq"], "end_seq": end_seq,
                              "status": ex["status"], "parts": [ex], "creation": False, "start": st})
     return attempts
+
+
+def root_vm_oid(object_root):
+    """``image1_vm1-<variant>`` (what a creation step is the root of) -> ``vm1-<variant>``."""
+    suffix, _, variant = object_root.partition("-")
+    return suffix.split("_")[-1] + "-" + variant
 
 
 def short_root(object_root):
@@ -163,8 +170,8 @@ def check_C04(history):
                     worst = level
                     workers = sorted(a["worker"] for a in live)
                     out.append(V("C04", "overlap",
-                                 f"{level} simultaneous executions of {atts[0]['label']} (limit {limit}, scope {scope[0]})",
-                                 cls=cls, scope=scope, workers=workers, at_seq=seq, limit=limit))
+                                 f"more simultaneous executions of {atts[0]['label']} than allowed (limit {limit}, scope {scope[0]})",
+                                 cls=cls, scope=scope, workers=workers, at_seq=seq, limit=limit, level=level))
         # back-off clause: after meeting an occupied node the worker sleeps a bounded period
         test_timeout = numeric(configured(history, epoch, "test_timeout"), 3600)
         for ev in events:
@@ -264,12 +271,35 @@ def check_C01(history):
                 if exempt_by_failed_producer(execs, st, need):
                     continue
                 vm_os = short_root(need["obj"])
+                residue = own_pool_residue(events, st, need)
+                if residue:
+                    # the only holder of the state is another worker's own pool, found there by that
+                    # worker's scan, and nobody is told: a separately classified (known) defect
+                    out.append(V("C01", "missing-state/own-pool-residue",
+                                 f"{st['label']} started without {need['type']} state {need['state']} of {vm_os} "
+                                 f"which only another worker's own pool holds",
+                                 cls=st["cls"], worker=st["worker"], holder=residue, seq=st["seq"], epoch=epoch,
+                                 obj=need["obj"], state=need["state"], locations=need["locations"]))
+                    continue
                 out.append(V("C01", "missing-state",
                              f"{st['label']} started without {need['type']} state {need['state']} of {vm_os}",
                              cls=st["cls"], worker=st["worker"], seq=st["seq"], epoch=epoch,
                              obj=need["obj"], state=need["state"], locations=need["locations"],
                              scope=need["scope"]))
     return dedup(out)
+
+
+def own_pool_residue(events, st, need):
+    """Worker whose scan found the needed state in its own pool only (before this start), if any."""
+    for ev in events:
+        if ev["seq"] >= st["seq"]:
+            break
+        if ev["kind"] != "door.check" or ev["worker"] == st["worker"]:
+            continue
+        for r in ev["reqs"]:
+            if r["obj"] == need["obj"] and r["state"] == need["state"] and r.get("found") == "own":
+                return ev["worker"]
+    return None
 
 
 def exempt_by_failed_producer(execs, st, need):
@@ -280,7 +310,7 @@ def exempt_by_failed_producer(execs, st, need):
         if pst["seq"] >= st["seq"]:
             break
         produced = any(s["obj"] == need["obj"] and s["state"] == need["state"] for s in pst["sets"])
-        creation = bool(pst.get("object_root")) and pst["object_root"] == vm_oid
+        creation = bool(pst.get("object_root")) and root_vm_oid(pst["object_root"]) == vm_oid
         if not (produced or creation):
             continue
         # did not pass, as known at the start of the dependant (still running counts as not passed yet,
@@ -324,6 +354,10 @@ def check_C02(history, expected_tests=None):
             continue
         if how == "raised":
             if scen.get("expect_value_error") and ending.get("error_type") == "ValueError":
+                continue
+            if ending.get("error_type") == "EmptyCartesianProduct" and not any(
+                    ev["kind"] == "worker.begin" and ev["epoch"] == epoch for ev in history["events"]):
+                # the selection was rejected while parsing, before any traversal: not C02's business
                 continue
             out.append(V("C02", "traversal-error",
                          f"traversal raised {ending.get('error_type')}: {strip_ids(ending.get('error') or '')[:120]}",
